@@ -104,7 +104,7 @@ def _cells(rng, ny, nx, cell):
     return out
 
 
-def render(rng, contents, cell=24, grid=None, elong=True):
+def render(rng, contents, cell=24, grid=None, elong=True, parity=None):
     """Render a list of cell contents ('blend'|'iso'|'tiny'|'plateau'|'empty') on a jittered grid."""
     n = len(contents)
     if grid is None:
@@ -120,9 +120,15 @@ def render(rng, contents, cell=24, grid=None, elong=True):
     ncomp = []
     for what, ci in zip(contents, order):
         x0, y0 = centres[ci]
+        if parity:
+            # (ix) centres exactly on a pixel centre (k) or a pixel corner (k + 0.5), even and odd k;
+            # '*_equal': equal, round components at integer offsets -> exactly symmetric saddles / ties
+            off = 0.5 if parity.startswith('half') else 0.0
+            x0, y0 = float(np.floor(x0)) + off, float(np.floor(y0)) + off
         if what == 'blend':
             k = int(rng.integers(2, 5))
             s0 = rng.uniform(1.1, 2.2)
+            amp0 = 10.0 ** rng.uniform(0.5, 2.0)
             for g in range(k):
                 s = s0 * rng.uniform(0.8, 1.25)
                 if g == 0:
@@ -133,6 +139,10 @@ def render(rng, contents, cell=24, grid=None, elong=True):
                     dx, dy = r * np.cos(a), r * np.sin(a)
                 q = rng.uniform(0.6, 1.0) if elong else 1.0
                 amp = 10.0 ** rng.uniform(0.5, 2.0)
+                if parity:
+                    dx, dy = float(np.round(dx)), float(np.round(dy))
+                    if parity.endswith('equal'):
+                        s, q, amp = s0, 1.0, amp0
                 img += _gauss(xx, yy, x0 + dx, y0 + dy, s, s * q, rng.uniform(0, np.pi), amp)
             ncomp.append(k)
         elif what == 'iso':
@@ -157,8 +167,10 @@ def render(rng, contents, cell=24, grid=None, elong=True):
     return img, ncomp
 
 
-LABEL_FORMS = ('int', 'npint', 'npsmall', 'zero_d', 'list', 'list_np', 'tuple', 'array', 'unsorted', 'dups', 'all')
+LABEL_FORMS = ('int', 'npint', 'npsmall', 'zero_d', 'list', 'list_np', 'tuple', 'array', 'unsorted', 'descending',
+               'dups', 'all')
 LAYOUTS = ('F', 'strided', 'transposed', 'offset', 'bigendian')
+EDGES = ('left', 'right', 'bottom', 'top', 'bottom_left', 'bottom_right', 'top_left', 'top_right')
 
 
 def draw_axes(rng, cls):
@@ -177,7 +189,8 @@ def draw_axes(rng, cls):
     if rng.random() < p:
         ax['seg_layout'] = str(rng.choice(LAYOUTS))
     if rng.random() < 0.3 and cls not in ('hostile',):
-        ax['data_dtype'] = str(rng.choice(['float32', 'float32', 'int32', 'int64', 'uint16']))
+        ax['data_dtype'] = str(rng.choice(['float32', 'float32', 'float16', 'int32', 'int64', 'int16', 'uint8',
+                                           'uint16', 'uint32', 'uint64']))
     if rng.random() < p and cls not in ('nmarkers',):
         ax['shape'] = str(rng.choice(['wide', 'tall', '1xN', 'Nx1']))
     if rng.random() < p:
@@ -192,6 +205,15 @@ def draw_axes(rng, cls):
         }
     if rng.random() < p:
         ax['labels_form'] = str(rng.choice(LABEL_FORMS))
+    # ---- second list (generic_axes2.txt) ----
+    if rng.random() < 0.5:
+        ax['provenance'] = True              # (x) the input SegmentationImage gets a history (see c06._with_history)
+    if rng.random() < 0.3 and cls not in ('nmarkers',) and ax.get('shape') not in ('1xN', 'Nx1'):
+        ax['edge'] = str(rng.choice(EDGES))  # (viii) sources cut by one border / corner
+    if rng.random() < 0.3 and cls not in ('nmarkers',):
+        ax['parity'] = str(rng.choice(['int', 'half', 'int_equal', 'half_equal']))   # (ix)
+    if rng.random() < 0.2:
+        ax['allfalse_mask'] = True           # (xi) a caller-owned all-False mask for detection / SourceFinder
     return ax
 
 
@@ -296,7 +318,23 @@ def make_scene(rng, cls):
         grid = None
         if shape_ax in ('wide', 'tall'):
             grid = (1, len(contents))
-        img, ncomp = render(rng, contents, cell=cell, grid=grid, elong=(cls != 'flat' or rng.random() < 0.5))
+        img, ncomp = render(rng, contents, cell=cell, grid=grid, elong=(cls != 'flat' or rng.random() < 0.5),
+                            parity=ax.get('parity'))
+        if 'edge' in ax and min(img.shape) > cell:
+            # (viii) cut through the first / last row or column of cells: sources straddle exactly one border
+            # (or one corner); odd and even cuts
+            c = cell // 2 + int(rng.integers(-2, 3))
+            e = ax['edge']
+            if 'bottom' in e:
+                img = img[c:, :]
+            if 'top' in e:
+                img = img[:-c, :]
+            if 'left' in e:
+                img = img[:, c:]
+            if 'right' in e:
+                img = img[:, :-c]
+            img = np.ascontiguousarray(img)
+            flags['edge'] = e
 
     if cls == 'nmarkers':
         # one large envelope with many local peaks (> 200 markers for exponential/sinh)
@@ -376,6 +414,9 @@ def make_scene(rng, cls):
             thr = 0.5
         flags['hostile_kind'] = kind
 
+    if mask is None and ax.get('allfalse_mask'):
+        mask = np.zeros(img.shape, dtype=bool)
+        flags['allfalse_mask'] = True
     if shape_ax in ('tall', 'Nx1'):
         img = np.ascontiguousarray(img.T)
         if mask is not None:
@@ -389,12 +430,13 @@ def make_scene(rng, cls):
         flags['scale_kind'] = kind_s
     if 'data_dtype' in ax and img.dtype == np.float64 and 'scale' not in flags and np.isfinite(img).all():
         dt = ax['data_dtype']
-        if dt == 'float32':
-            img = img.astype(np.float32)
+        if dt in ('float32', 'float16'):
+            img = np.clip(img, -6e4, 6e4).astype(dt)
         else:
-            if dt == 'uint16' and img.min() < 0:
+            if dt.startswith('uint') and img.min() < 0:
                 dt = 'int32'
-            img = np.round(img).astype(dt)
+            info = np.iinfo(dt)
+            img = np.clip(np.round(img), info.min, min(info.max, 2 ** 62)).astype(dt)   # narrow dtypes saturate
         flags['data_dtype_axis'] = dt
     elif 'data_dtype' in ax and ax['data_dtype'] == 'float32' and img.dtype == np.float64 \
             and np.isfinite(img).all() and 1e-30 < abs(flags.get('scale', 1.0)) < 1e30:
@@ -626,6 +668,10 @@ def draw_labels(rng, how, labs, areas, npixels):
     if how == 'unsorted':
         p = rng.permutation(sub)
         return p.astype(np.int64), [int(v) for v in p]
+    if how == 'descending':
+        p = sub[::-1]
+        dt = [np.int64, np.int32, np.uint32, np.uint64][int(rng.integers(0, 4))]
+        return p.astype(dt), [int(v) for v in p]
     if how == 'dups':
         p = np.concatenate([sub, rng.choice(sub, size=int(rng.integers(1, 3)))])
         p = rng.permutation(p)
